@@ -689,7 +689,8 @@ fn semantic_failing_files(rng: &mut Rng, n: usize) -> Vec<corpus::TestFile> {
         let damage = |raw: &mut Vec<u8>, r: &mut Rng, kind: usize, rb: usize, h: usize| {
             if kind == 0 {
                 // drop 1..h-1 whole rows (and sometimes part of one more) from the end
-                let keep_rows = if h > 1 { r.usize(0, h - 1) } else { 0 };
+                // mostly at least one whole row survives (the reader then holds a previous row when the frame fails), sometimes none
+                let keep_rows = if h > 1 { if r.chance(1, 4) { 0 } else { r.usize(1, h - 1) } } else { 0 };
                 let cut = (keep_rows * (rb + 1) + if r.usize(0, 2) == 0 { r.usize(0, rb) } else { 0 }).min(raw.len().saturating_sub(1));
                 raw.truncate(cut);
             } else if !raw.is_empty() {
@@ -720,7 +721,7 @@ fn semantic_failing_files(rng: &mut Rng, n: usize) -> Vec<corpus::TestFile> {
             // two frames; the damaged one is the first or the second.  When the first is damaged the second is, in half of the cases, a
             // NARROWER sub-frame: whatever the reader keeps from the failed frame (previous row, partial row) then has the wrong length
             let which = i % 4 < 2;
-            let narrow = which && r.bool() && img.w > 1;
+            let narrow = which && (i / 4) % 2 == 0 && img.w > 1;
             let second = if narrow {
                 let (w2, h2) = (r.range(1, img.w as u64 - 1) as u32, r.range(1, img.h as u64) as u32);
                 Img::random(&mut r, img.color, img.depth, w2, h2)
@@ -1361,7 +1362,7 @@ pub fn run_c02(ctx: &mut Ctx) {
     files.extend(failing_files(&mut rng, ctx.n(14, 70)));
     files.extend(corpus::truncated_body_files(&mut rng));
     // frames that fail at the Reader layer (rows missing, undefined filter type) followed by a frame of another size (seeded change C02_12)
-    files.extend(semantic_failing_files(&mut rng, ctx.n(24, 60)));
+    files.extend(semantic_failing_files(&mut rng, ctx.n(48, 96)));
     let alphabet = [Op::NextFrame(0xFF), Op::NextRow, Op::ReadRow, Op::NextFrameInfo, Op::Finish];
     let mut runs = vec![];
     let mut traces = vec![];
